@@ -167,8 +167,8 @@ elif ck.thorough():
     shards.append(("exh-G-m3-len8-k2", ["exh G 3 1 8 2"]))
     for i in range(4):
         shards.append(("random-%d" % i, gen_random(2500)))
-    shards.append(("pad", gen_pad()))
     shards.append(("virtual", gen_virtual(400)))
+    shards.append(("pad", gen_pad()))
 else:
     shards.append(("corpus", corpus))
     shards.append(("exh-L-m3-len4-k3", ["exh L 1 1 9 3", "exh L 2 1 4 3", "exh L 3 1 4 3"]))
@@ -177,8 +177,8 @@ else:
     shards.append(("exh-L-m2-len12-k2", ["exh L 2 1 12 2", "exh L 3 1 5 2"]))
     for i in range(2):
         shards.append(("random-%d" % i, gen_random(700)))
-    shards.append(("pad", gen_pad()))
     shards.append(("virtual", gen_virtual(40)))
+    shards.append(("pad", gen_pad()))
 
 # ---------------------------------------------------------------- build + run
 # The harness instantiates both templates for 10 variants x 3 comparators; it is compiled as four translation units
@@ -284,7 +284,19 @@ else:
                 idx += 1
             case = None
             logt = out1[-2500:]
-            if idx < len(model):
+            if is_virt(lines):
+                # one output line per case: the crashing case follows the last clean output line
+                nclean = 0
+                while nclean < len(impl) and impl[nclean].startswith("V"):
+                    nclean += 1
+                wrong = [i for i in range(min(nclean, len(model))) if impl[i] != model[i]]
+                if wrong:       # a wrong answer before the crash is the better witness
+                    ck.violation("answer on virtual (index-computed, > 2^32 elements) sequences violates the specification of "
+                                 "partition_correct/selection_correct: impl=%s spec=%s" % (impl[wrong[0]][:300], model[wrong[0]][:300]),
+                                 {"case": lines[wrong[0]], "impl": impl[wrong[0]][:2000], "spec": model[wrong[0]][:2000]})
+                    continue
+                case = lines[nclean] if nclean < len(lines) else None
+            elif idx < len(model):
                 c, s = model[idx].split(" ")[0:2]
                 N = sum(len(x.split(",")) for x in s.split("|"))
                 for r in range(N + 1):
@@ -305,12 +317,9 @@ else:
         sp = [i for i in mism if (i < len(impl) and (impl[i].startswith("V") or impl[i].startswith("pad ")))
               or (i < len(model) and (model[i].startswith("V") or model[i].startswith("pad ")))]
         mism = [i for i in mism if i not in set(sp)]
-        for i in sp[:3]:
+        for i in sp[:(1 if name == "pad" else 2)]:      # own small caps: a pad mismatch must not hide a virtual witness
             a = impl[i] if i < len(impl) else "<missing>"
             b = model[i] if i < len(model) else "<missing>"
-            if reported >= 3:
-                break
-            reported += 1
             if a.startswith("V") or b.startswith("V"):
                 found = True
                 c, desc = (a if a.startswith("V") else b).split(" ")[0:2]
@@ -416,4 +425,6 @@ ck.finish({
     "element types int and struct{key,payload}; comparators std::less, std::greater, less-on-x/4, each also wrapped by-key / stateful; "
     "RankType int, long, long long, unsigned int, std::size_t; iterators vector, deque, raw pointer",
     "extraction: ExtrOcamlBasic only; nat/Z/list stay Coq inductives",
+    "virtual sequences (> 2^32 elements) are judged by the specification predicate evaluated in the C++ harness and by the "
+    "check script's run-length evaluation of the stable merge, not by the extracted model/checker (which need explicit lists)",
 ])
